@@ -305,6 +305,7 @@ def run(chk):
     _noops_rule(chk, prog)
     _movopt_rule(chk, prog)
     _jumppair_rule(chk, prog)
+    _alias_rule(chk, prog)
 
 
 def _jumppair_rule(chk, prog):
@@ -358,6 +359,160 @@ def _jumppair_rule(chk, prog):
             else:
                 chk.ok(rule, "%s: %s at %s complementary to its sibling on every path" % (fn.name, strip_casts(x.args[1]).name, x.loc))
     chk.floor(rule, 2, n)
+
+
+def _alias_rule(chk, prog):
+    """An inline emitter gets its result slot from janetc_gettarget(opts), which returns the HINT - for (set x ...) that
+    is x's own register.  If the emitter writes the target and only afterwards reads further operands (variadic
+    reduction, chained comparison, put), a target that is also one of those operands changes the operand under its
+    feet: (set x (+ b x x)) must be b + x + x, as the call through the function value computes.  Obligation: every
+    read of args[k] that can follow a write of the target is covered by a proof that the target does not alias
+    args[k] - the target came from a no-alias helper whose scan starts at or below k, or janetc_sequal(target, args[k])
+    was tested (do_get's idiom)."""
+    rule = "C15-ALIAS"
+    chk.rule(rule, "an inline emitter never reads an operand after writing a target that may be that operand")
+    cf = prog.tus["cfuns.c"]
+    EMITS = ("janetc_emit_s", "janetc_emit_ss", "janetc_emit_sss", "janetc_emit_si", "janetc_emit_su", "janetc_emit_ssi", "janetc_emit_ssu")
+    # no-alias helpers: return janetc_gettarget's slot only after comparing it (janetc_sequal) with args[i], i from a parameter
+    helpers = {}
+    for fn in cf.funcs.values():
+        ps = [p["n"] for p in fn.params]
+        if fn.calls("janetc_gettarget") and fn.calls("janetc_sequal") and len(ps) >= 3:
+            for x in fn.nodes:
+                if x.k in ("vardecl", "asg") and x.k == "vardecl" and x.kids and is_ref(strip_casts(x.kids[0])) and strip_casts(x.kids[0]).name in ps \
+                        and any(y.k == "sub" and is_ref(strip_casts(y.kids[1]), x.name) for c in fn.calls("janetc_sequal") for y in c.walk()):
+                    helpers[fn.name] = ps.index(strip_casts(x.kids[0]).name)
+    n = 0
+    for fn in cf.funcs.values():
+        if fn.name in helpers:
+            continue
+        ps = [p["n"] for p in fn.params]
+        if "args" not in ps:
+            continue
+        targets = {}
+        for x in fn.nodes:
+            tgt = rhs = None
+            if x.k == "vardecl" and x.kids:
+                tgt, rhs = x.name, strip_casts(x.kids[0])
+            elif x.k == "asg" and x.op == "=" and is_ref(x.kids[0]):
+                tgt, rhs = x.kids[0].name, strip_casts(x.kids[1])
+            if tgt and rhs is not None and rhs.k == "call":
+                if rhs.callee == "janetc_gettarget":
+                    targets.setdefault(tgt, set()).add(None)
+                elif rhs.callee in helpers and len(rhs.args) > helpers[rhs.callee]:
+                    targets.setdefault(tgt, set()).add(rhs.args[helpers[rhs.callee]].v)
+        if not targets:
+            continue
+        chk.analysed(fn)
+        # lower bounds of loop variables: smallest constant ever assigned
+        lows = {}
+        for x in fn.nodes:
+            if x.k == "asg" and x.op == "=" and is_ref(x.kids[0]) and strip_casts(x.kids[1]).v is not None:
+                lows[x.kids[0].name] = min(lows.get(x.kids[0].name, 1 << 30), strip_casts(x.kids[1]).v)
+            if x.k == "vardecl" and x.kids and strip_casts(x.kids[0]).v is not None:
+                lows[x.name] = min(lows.get(x.name, 1 << 30), strip_casts(x.kids[0]).v)
+
+        def low_index(e):
+            e = strip_casts(e)
+            if e.v is not None:
+                return e.v
+            if is_ref(e) and e.name in lows:
+                return lows[e.name]
+            if e.k == "bin" and e.op in ("+", "-") and strip_casts(e.kids[1]).v is not None:
+                b = low_index(e.kids[0])
+                return None if b is None else (b + strip_casts(e.kids[1]).v if e.op == "+" else b - strip_casts(e.kids[1]).v)
+            return None
+        guarded = set()
+        for c in fn.calls("janetc_sequal"):
+            for a in c.args:
+                a = strip_casts(a)
+                if a.k == "sub" and is_ref(strip_casts(a.kids[0]), "args"):
+                    guarded.add(a.text().replace(" ", ""))
+
+        def writes_target(x):
+            if x.k != "call":
+                return None
+            if x.callee in EMITS and len(x.args) > 2 and is_ref(strip_casts(x.args[2])) and strip_casts(x.args[2]).name in targets \
+                    and x.args[-1].v != 0:
+                return strip_casts(x.args[2]).name
+            if x.callee == "janetc_copy" and len(x.args) > 1 and is_ref(strip_casts(x.args[1])) and strip_casts(x.args[1]).name in targets:
+                return strip_casts(x.args[1]).name
+            return None
+
+        def arg_reads(x):
+            out = []
+            if x.k == "call" and (x.callee in EMITS or x.callee == "janetc_copy"):
+                srcs = x.args[3:] if x.callee in EMITS else x.args[2:]
+                for a in srcs:
+                    a = strip_casts(a)
+                    if a.k == "sub" and is_ref(strip_casts(a.kids[0]), "args"):
+                        out.append(a)
+            return out
+
+        def transfer(st, x):
+            # which definition of the target reaches (its no-alias scan start, or "plain")
+            tgt = rhs = None
+            if x.k == "vardecl" and x.kids:
+                tgt, rhs = x.name, strip_casts(x.kids[0])
+            elif x.k == "asg" and x.op == "=" and is_ref(x.kids[0]):
+                tgt, rhs = x.kids[0].name, strip_casts(x.kids[1])
+            if tgt in targets and rhs is not None and rhs.k == "call":
+                st = frozenset(f for f in st if not (f[0] in ("def", "w") and f[1] == tgt))
+                if rhs.callee == "janetc_gettarget":
+                    st = st | {("def", tgt, "plain")}
+                elif rhs.callee in helpers:
+                    st = st | {("def", tgt, rhs.args[helpers[rhs.callee]].v)}
+                return st
+            if tgt is not None and rhs is not None and tgt not in targets:
+                st = frozenset(f for f in st if not (f[0] in ("lo", "inc") and f[1] == tgt))
+                if rhs.v is not None:
+                    st = st | {("lo", tgt, rhs.v)}
+                return st
+            w = writes_target(x)
+            if w:
+                return st | {("w", w)}
+            # a loop variable stepped after the first write: later reads see at least low + 1
+            if x.k == "un" and x.op in ("pre++", "post++") and is_ref(x.kids[0]) and any(f[0] == "w" for f in st):
+                return st | {("inc", x.kids[0].name)}
+            return st
+        IN, OUT, T = flow.forward_paths(fn, frozenset(), transfer)
+        seen = set()
+        for x, S in flow.states_at(fn, IN, T):
+            for a in arg_reads(x):
+                for t in sorted(targets):
+                    paths = [ps for ps in S if ("w", t) in ps]
+                    if not paths or (x.id, a.id, t) in seen:
+                        continue
+                    seen.add((x.id, a.id, t))
+                    n += 1
+                    chk.instance(rule)
+                    ok = True
+                    for ps in paths:
+                        def low_here(e):
+                            e = strip_casts(e)
+                            if is_ref(e):
+                                lo = [f[2] for f in ps if f[0] == "lo" and f[1] == e.name]
+                                if not lo:
+                                    return None
+                                return min(lo) + (1 if ("inc", e.name) in ps else 0)
+                            if e.k == "bin" and e.op in ("+", "-") and strip_casts(e.kids[1]).v is not None:
+                                b = low_here(e.kids[0])
+                                return None if b is None else (b + strip_casts(e.kids[1]).v if e.op == "+" else b - strip_casts(e.kids[1]).v)
+                            return e.v
+                        k = low_here(a.kids[1])
+                        froms = [f[2] for f in ps if f[0] == "def" and f[1] == t]
+                        good = a.text().replace(" ", "") in guarded or (
+                            froms and k is not None and all(f != "plain" and f is not None and f <= k for f in froms))
+                        if not good:
+                            ok = False
+                    if ok:
+                        chk.ok(rule, "%s: %s read after `%s` was written - shown not to alias" % (fn.name, a.text(), t))
+                    else:
+                        chk.violation(rule, "cfuns.c", fn.name, "%s/%s" % (t, a.text().replace(" ", "")), x.loc,
+                                      "`%s` reads %s after the target `%s` has been written, and `%s` may be the very slot of %s (the hint "
+                                      "of a `set`): the inline code computes with the overwritten operand, the function call does not"
+                                      % (x.text()[:60], a.text(), t, t, a.text()))
+    chk.floor(rule, 3, n)
 
 
 def _noops_rule(chk, prog):
